@@ -185,3 +185,81 @@ func TestC19(t *testing.T) {
 		st.Case(nt, map[string]interface{}{"cfg": cfg, "period": k, "t1": t1, "dms": dms, "extra_supply": extra.String()}, classes...)
 	})
 }
+
+// TestC19Rescheduled: the identity after a history - a period ends, the next one begins, then
+// governance moves the end of the finished period back into the future (a late correction of a date).
+// The running period then starts in the future: nothing is minted until then, and the reported
+// inflation has to say so.
+func TestC19Rescheduled(t *testing.T) {
+	st := StatsFor("C19")
+	rapid.Check(t, func(t *rapid.T) {
+		cfg := GenMinterCfg(t, 4, 60, 30)
+		params, sched := cfg.Build()
+		if len(sched.Periods) < 2 || cfg.Unordered() {
+			st.Case(false, nil, "rescheduled_single_period_or_unordered")
+			return
+		}
+		k := rapid.IntRange(1, len(sched.Periods)-1).Draw(t, "period")
+		oldEnd := *sched.Periods[k-1].End
+		gap := []int64{3600 * secNs, dayNs, 30 * dayNs}[rapid.IntRange(0, 2).Draw(t, "gap")]
+		if e := sched.Periods[k].End; e != nil && oldEnd+gap >= *e {
+			st.Case(false, nil, "rescheduled_gap_does_not_fit")
+			return
+		}
+		w, ctx := Case()
+		lo := sched.StartNs - 3*secNs
+		setupMinter(t, w, ctx, params, cfg.FirstID, nsTime(lo-secNs))
+		FundAccount(w.App, ctx, KeyAcc(6).Addr, sdk.NewCoins(sdk.NewCoin(cfg.Denom, sdk.NewIntFromBigInt(genAmount(t, "extraSupply", 26, false)))))
+		for _, at := range []int64{sched.StartNs + 1, oldEnd - 1, oldEnd + msNs} {
+			if at <= lo {
+				continue
+			}
+			if _, _, pan := mintBlock(w, ctx, cfg.Denom, at); pan != nil {
+				t.Fatalf("panic %v", pan)
+			}
+		}
+		if got := w.App.CfeminterKeeper.GetMinterState(ctx).SequenceId; got != cfg.FirstID+uint32(k) {
+			st.Case(false, nil, "rescheduled_state_not_in_the_period")
+			return
+		}
+		// the late correction
+		var list []*mintertypes.Minter
+		for _, m := range params.Minters {
+			c := *m
+			if c.SequenceId == cfg.FirstID+uint32(k-1) {
+				e := nsTime(oldEnd + gap)
+				c.EndTime = &e
+			}
+			list = append(list, &c)
+		}
+		res := RunMsg(w.App, ctx.WithBlockTime(nsTime(oldEnd+2*msNs)), &mintertypes.MsgUpdateMintersParams{Authority: GovAuthority(), StartTime: params.StartTime, Minters: list})
+		if !res.OK() {
+			st.Case(false, nil, "rescheduled_update_rejected")
+			return
+		}
+		t1 := oldEnd + gap/4
+		t2 := oldEnd + gap/2
+		if _, _, pan := mintBlock(w, ctx, cfg.Denom, t1); pan != nil {
+			t.Fatalf("block after the correction panicked: %v", pan)
+		}
+		resp, err := w.App.CfeminterKeeper.Inflation(sdk.WrapSDKContext(ctx.WithBlockTime(nsTime(t1))), &mintertypes.QueryInflationRequest{})
+		if err != nil {
+			t.Fatalf("Inflation query failed: %v", err)
+		}
+		supply := w.App.BankKeeper.GetSupply(ctx, cfg.Denom).Amount
+		minted, _, pan := mintBlock(w, ctx, cfg.Denom, t2)
+		if pan != nil {
+			t.Fatalf("block after the correction panicked: %v", pan)
+		}
+		infRat := new(big.Rat).SetFrac(resp.Inflation.BigInt(), ten18)
+		pred := new(big.Rat).Mul(new(big.Rat).Mul(infRat, new(big.Rat).SetInt(supply.BigInt())), big.NewRat(t2-t1, yearNs))
+		// 2 units + the 18-digit resolution of the reported figure: supply * 2e-18 * interval/year
+		tol := new(big.Rat).Mul(new(big.Rat).Mul(new(big.Rat).SetInt(supply.BigInt()), big.NewRat(2, 1_000_000_000_000_000_000)), big.NewRat(t2-t1, yearNs))
+		tol.Add(tol, big.NewRat(2, 1))
+		if ratAbsDiff(pred, new(big.Rat).SetInt(minted)).Cmp(tol) > 0 {
+			t.Fatalf("after the end of period %d was moved from %d to %d: between t=%d and t=%d the minter minted %s, inflation %s x supply %s x interval/year predicts %s\ncfg=%s",
+				k-1, oldEnd, oldEnd+gap, t1, t2, minted, resp.Inflation, supply, pred.FloatString(3), jsonStr(cfg))
+		}
+		st.Case(true, map[string]interface{}{"cfg": cfg, "period": k, "gap": gap}, "end_of_finished_period_moved_into_the_future")
+	})
+}
